@@ -81,6 +81,7 @@ def sources(tier, seed, ctx):
     # their current names (absent => not observed, never an alarm)
     for t in ['NOT', 'AND', 'NAND', 'OR', 'NOR', 'XOR', 'NXOR', 'GEQ', 'GT', 'LEQ', 'LT']:
         srcs.append({'k': 'pattern', 't': t})
+        srcs.append({'k': 'pattern', 't': t, 'all': True})
     srcs.append({'k': 'opcodes'})
     for t in gen.ALL18:
         ars = [0] if t in gen.NULLARY else [1] if t in gen.UNARY else [2] if t in gen.BINARY else [2, 3]
@@ -253,8 +254,8 @@ def record(src):
         except Exception as e:
             if src['k'] == 'ttcode':
                 return {'kind': 'ttcode', 'code': [int(ch) for ch in src['code']], 't': 'raised:' + type(e).__name__, 'rows': [], 'src': src}
-            return {'kind': 'optable', 't': src['t'], 'n': src.get('n', 2), 'who': src.get('who', 'subcircuit-pattern-simulation') + '-raised:' + type(e).__name__,
-                    'rows': [], 'badrows': [0], 'src': src}
+            return {'kind': 'optable', 't': src['t'], 'n': src.get('n', 1 if src['t'] == 'NOT' else 2),
+                    'who': src.get('who', 'subcircuit-pattern-simulation') + '-raised:' + type(e).__name__, 'rows': [], 'badrows': [0], 'src': src}
     if src['k'] == 'cnftemplate':
         # the CNF template of one gate type, judged by the exactness clause of C05 on a one-gate circuit
         try:
@@ -307,6 +308,12 @@ def _record_table(src):
             return []
         t = src['t']
         n = 1 if t == 'NOT' else 2
+        if src.get('all'):
+            # ALL operand patterns of a 2-input cone (4-bit truth tables), not only the two input columns:
+            # bit i of the result must be the gate function of bits i of the operands
+            po = _PatternOperations(2)
+            tab = [[po.eval_pattern([pa] if n == 1 else [pa, pb], t) for pb in range(16)] for pa in range(16)]
+            return {'kind': 'pattern', 't': t, 'n': n, 'tab': tab, 'src': src}
         pats = _generate_inputs_tt(n)
         res = _PatternOperations(n).eval_pattern(list(pats), t)
         rows = []
